@@ -164,12 +164,17 @@ def nlh(cmd, lines, profile="release", timeout=600, tag="cases"):
     out = []
     start = 0
     lines = list(lines)
+    timeouts = 0
     while start < len(lines):
+        if timeouts >= 4:
+            # a build that hangs again and again: do not wait for every remaining case
+            out.extend(["TIMEOUT-SKIPPED"] * (len(lines) - start))
+            break
         path = os.path.join(WORK, "cases", "%s_%d_%d.txt" % (tag, os.getpid(), start))
         with open(path, "w") as f:
             f.write("\n".join(lines[start:]) + "\n")
         try:
-            p = subprocess.run(["prlimit", "--as=4294967296", exe, cmd, path], stdout=subprocess.PIPE, stderr=subprocess.PIPE, timeout=timeout, text=True, errors="replace")
+            p = subprocess.run(["prlimit", "--as=4294967296", exe, cmd, path], stdout=subprocess.PIPE, stderr=subprocess.PIPE, timeout=(timeout if timeouts == 0 else min(timeout, 60)), text=True, errors="replace")
             got = p.stdout.split("\n")
             if got and got[-1] == "":
                 got.pop()
@@ -182,6 +187,7 @@ def nlh(cmd, lines, profile="release", timeout=600, tag="cases"):
                 got.pop()
             # the last line may be partial
             status = "TIMEOUT"
+            timeouts += 1
         os.unlink(path)
         need = len(lines) - start
         if len(got) >= need:
